@@ -143,6 +143,12 @@ def long_values(version):
         add('a^n ending in a backslash', 'a' * (n - 1) + '\\')
         add(';a^n ending in a backslash and blanks', ';' + 'a' * (n - 4) + '\\  ')
         add('a^4090, a^n ending in a backslash', 'a' * 4090 + '\n' + 'a' * (n - 1) + '\\\nz')
+    # prefixed but not (necessarily) folded: every line of the field carries the prefix, so the limit applies to prefix + line
+    for n in range(2036, 2054):
+        add('a^n, nl, ;x', 'a' * n + '\n;x')
+        add('x, nl, ;y, nl, a^n', 'x\n;y\n' + 'a' * n)
+        add('x, nl, ;y, nl, a^n, nl, z', 'x\n;y\n' + 'a' * n + '\nz')
+        add('a^n, nl, q, nl, ;x', 'a' * n + '\nq\n;x')
     for n in (2044, 2045, 2046, 2047, 2048, 2049, 2050):
         add(';^n', ';' * n)
         add('a;^n', 'a' + ';' * n)
